@@ -30,6 +30,7 @@ const (
 	kInt
 	kStr
 	kByte
+	kOID // a git.OID parameter: only its String() is used, passed in as a byte string
 )
 
 type val struct {
@@ -41,6 +42,13 @@ type val struct {
 type env struct {
 	vars map[string]kind // Go identifier (or recv.field) -> kind
 	name map[string]string
+	// mutable locals in declaration order (loops carry them as parameters)
+	locals []string
+	params []string // the function's own parameters (Lean binders' names), passed on to loop functions
+	fname  string
+	want   []kind
+	aux    *strings.Builder // auxiliary loop definitions, emitted before the function
+	nloops int
 }
 
 func bytesLit(s string) string {
@@ -123,6 +131,9 @@ func (e *env) expr(x ast.Expr) val {
 		}
 		die(t.Pos(), "unsupported selector")
 	case *ast.UnaryExpr:
+		if t.Op == token.SUB {
+			return bind1(e.expr(t.X), func(a string) string { return "(-" + a + ")" }, kInt)
+		}
 		if t.Op == token.NOT {
 			return bind1(e.expr(t.X), func(a string) string { return "(!" + a + ")" }, kBool)
 		}
@@ -135,6 +146,15 @@ func (e *env) expr(x ast.Expr) val {
 				fn := map[string]string{"HasPrefix": "Bytes.hasPrefix", "HasSuffix": "Bytes.hasSuffix"}[sel.Sel.Name]
 				if fn != "" {
 					return bind2(e.expr(t.Args[0]), e.expr(t.Args[1]), func(a, b string) string { return "(" + fn + " " + a + " " + b + ")" }, kBool)
+				}
+			}
+		}
+		// a method call on a parameter of a foreign type, passed in as a value: `oid.String()`
+		if sel, ok := t.Fun.(*ast.SelectorExpr); ok && len(t.Args) == 0 {
+			if id, ok := sel.X.(*ast.Ident); ok {
+				key := id.Name + "." + sel.Sel.Name + "()"
+				if k, ok := e.vars[key]; ok {
+					return val{e.name[key], true, k}
 				}
 			}
 		}
@@ -185,8 +205,18 @@ func (e *env) expr(x ast.Expr) val {
 				op = " != "
 			}
 			return bind2(a, b, func(x, y string) string { return "(" + x + op + y + ")" }, kBool)
+		case token.GTR, token.LSS, token.GEQ, token.LEQ:
+			a, b := e.expr(t.X), e.expr(t.Y)
+			if a.k != kInt || b.k != kInt {
+				die(t.Pos(), "ordering of non-ints")
+			}
+			op := map[token.Token]string{token.GTR: " > ", token.LSS: " < ", token.GEQ: " ≥ ", token.LEQ: " ≤ "}[t.Op]
+			return bind2(a, b, func(x, y string) string { return "(decide (" + x + op + y + "))" }, kBool)
 		case token.ADD, token.SUB:
 			a, b := e.expr(t.X), e.expr(t.Y)
+			if t.Op == token.ADD && a.k == kStr && b.k == kStr {
+				return bind2(a, b, func(x, y string) string { return "(" + x + " ++ " + y + ")" }, kStr)
+			}
 			if a.k != kInt || b.k != kInt {
 				die(t.Pos(), "arithmetic on non-ints")
 			}
@@ -235,39 +265,251 @@ func (e *env) ret(rs []ast.Expr, want []kind) string {
 	return "(do " + strings.Join(binds, "") + "pure " + tuple + ")"
 }
 
-func (e *env) block(stmts []ast.Stmt, want []kind, ind string) string {
-	if len(stmts) == 0 {
-		die(token.NoPos, "function falls off its end")
+// known translated functions: name -> result kinds
+var translated = map[string][]kind{}
+
+func (e *env) declare(name string, k kind) {
+	if _, ok := e.vars[name]; !ok {
+		e.locals = append(e.locals, name)
 	}
-	switch t := stmts[0].(type) {
+	e.vars[name] = k
+	e.name[name] = "g_" + name
+}
+
+func (e *env) letStmt(name string, v val, rest string, ind string) string {
+	if v.pure {
+		return fmt.Sprintf("%slet %s := %s\n%s", ind, e.name[name], v.code, rest)
+	}
+	return fmt.Sprintf("%slet %s ← %s\n%s", ind, e.name[name], v.m(), rest)
+}
+
+// stmts translates a statement list into the lines of a `do` block of type Res T; `cont` yields
+// the lines for what follows when control falls off the end of the list.
+func (e *env) stmts(list []ast.Stmt, ind string, cont func(ind string) string) string {
+	if len(list) == 0 {
+		return cont(ind)
+	}
+	rest := func(i string) string { return e.stmts(list[1:], i, cont) }
+	switch t := list[0].(type) {
 	case *ast.ReturnStmt:
-		return ind + e.ret(t.Results, want)
+		return ind + e.ret(t.Results, e.want)
+	case *ast.AssignStmt:
+		if len(t.Lhs) == 1 && len(t.Rhs) == 1 {
+			id, ok := t.Lhs[0].(*ast.Ident)
+			if !ok {
+				die(t.Pos(), "assignment to a non-variable")
+			}
+			v := e.expr(t.Rhs[0])
+			if t.Tok == token.DEFINE {
+				e.declare(id.Name, v.k)
+			} else if _, ok := e.vars[id.Name]; !ok {
+				die(t.Pos(), "assignment to unknown variable")
+			}
+			return e.letStmt(id.Name, v, rest(ind), ind)
+		}
+		// x, y := f(args) for a translated function
+		if len(t.Rhs) == 1 && t.Tok == token.DEFINE {
+			if c, ok := t.Rhs[0].(*ast.CallExpr); ok {
+				if fid, ok := c.Fun.(*ast.Ident); ok {
+					if ks, ok := translated[fid.Name]; ok && len(ks) == len(t.Lhs) {
+						var args []string
+						for _, a := range c.Args {
+							v := e.expr(a)
+							if !v.pure {
+								die(a.Pos(), "impure argument")
+							}
+							args = append(args, v.code)
+						}
+						var names []string
+						for i, l := range t.Lhs {
+							id := l.(*ast.Ident)
+							e.declare(id.Name, ks[i])
+							names = append(names, e.name[id.Name])
+						}
+						return fmt.Sprintf("%slet (%s) ← %s %s\n%s", ind, strings.Join(names, ", "), fid.Name, strings.Join(args, " "), rest(ind))
+					}
+				}
+			}
+		}
+		die(t.Pos(), "unsupported assignment")
+	case *ast.IncDecStmt:
+		id, ok := t.X.(*ast.Ident)
+		if !ok || e.vars[id.Name] != kInt {
+			die(t.Pos(), "++/-- on a non-int variable")
+		}
+		op := " + 1"
+		if t.Tok == token.DEC {
+			op = " - 1"
+		}
+		return fmt.Sprintf("%slet %s := %s%s\n%s", ind, e.name[id.Name], e.name[id.Name], op, rest(ind))
 	case *ast.IfStmt:
 		if t.Init != nil {
 			die(t.Pos(), "if with init")
 		}
 		c := e.expr(t.Cond)
-		thenB := e.block(t.Body.List, want, ind+"  ")
+		thenB := e.stmts(t.Body.List, ind+"  ", rest)
 		var elseB string
 		if t.Else != nil {
 			eb, ok := t.Else.(*ast.BlockStmt)
 			if !ok {
 				die(t.Pos(), "else if")
 			}
-			elseB = e.block(eb.List, want, ind+"  ")
-			if len(stmts) > 1 {
-				die(stmts[1].Pos(), "statements after if/else")
-			}
+			elseB = e.stmts(eb.List, ind+"  ", rest)
 		} else {
-			elseB = e.block(stmts[1:], want, ind+"  ")
+			elseB = rest(ind + "  ")
 		}
-		if c.pure {
-			return fmt.Sprintf("%sif %s then\n%s\n%selse\n%s", ind, c.code, thenB, ind, elseB)
+		return e.cond(c, thenB, elseB, ind)
+	case *ast.SwitchStmt:
+		if t.Tag != nil || t.Init != nil {
+			die(t.Pos(), "switch with a tag")
 		}
-		x := fresh()
-		return fmt.Sprintf("%sdo\n%s  let %s ← %s\n%s  if %s then\n  %s\n%s  else\n  %s", ind, ind, x, c.m(), ind, x, strings.ReplaceAll(thenB, "\n", "\n  "), ind, strings.ReplaceAll(elseB, "\n", "\n  "))
+		var build func(cs []ast.Stmt, ind string) string
+		build = func(cs []ast.Stmt, ind string) string {
+			if len(cs) == 0 {
+				return rest(ind)
+			}
+			cc := cs[0].(*ast.CaseClause)
+			if len(cc.List) == 0 { // default
+				if len(cs) != 1 {
+					die(cc.Pos(), "default is not the last case")
+				}
+				return e.stmts(cc.Body, ind, rest)
+			}
+			if len(cc.List) != 1 {
+				die(cc.Pos(), "case with several expressions")
+			}
+			// the variables visible after the switch must not depend on which case ran:
+			// every case body is translated with its own continuation, so this holds
+			saveV, saveN, saveL := copyMap(e.vars), copyMapS(e.name), append([]string{}, e.locals...)
+			c := e.expr(cc.List[0])
+			thenB := e.stmts(cc.Body, ind+"  ", rest)
+			e.vars, e.name, e.locals = saveV, saveN, saveL
+			elseB := build(cs[1:], ind+"  ")
+			return e.cond(c, thenB, elseB, ind)
+		}
+		return build(t.Body.List, ind)
+	case *ast.ForStmt:
+		return e.forLoop(t, ind, rest)
 	}
-	die(stmts[0].Pos(), "unsupported statement %T", stmts[0])
+	die(list[0].Pos(), "unsupported statement %T", list[0])
+	return ""
+}
+
+func copyMap(m map[string]kind) map[string]kind {
+	r := map[string]kind{}
+	for k, v := range m {
+		r[k] = v
+	}
+	return r
+}
+func copyMapS(m map[string]string) map[string]string {
+	r := map[string]string{}
+	for k, v := range m {
+		r[k] = v
+	}
+	return r
+}
+
+func (e *env) cond(c val, thenB, elseB, ind string) string {
+	if c.pure {
+		return fmt.Sprintf("%sif %s then do\n%s\n%selse do\n%s", ind, c.code, thenB, ind, elseB)
+	}
+	x := fresh()
+	return fmt.Sprintf("%slet %s ← %s\n%sif %s then do\n%s\n%selse do\n%s", ind, x, c.m(), ind, x, thenB, ind, elseB)
+}
+
+// forLoop handles `for i := 0; i < len(s); i++ { body }`: an auxiliary function by recursion on
+// fuel (len(s)+1 suffices) that carries i and every mutable local; the statements after the loop
+// are its exit branch.
+func (e *env) forLoop(t *ast.ForStmt, ind string, rest func(string) string) string {
+	init, ok := t.Init.(*ast.AssignStmt)
+	if !ok || init.Tok != token.DEFINE || len(init.Lhs) != 1 {
+		die(t.Pos(), "for: init")
+	}
+	iv := init.Lhs[0].(*ast.Ident).Name
+	if lit, ok := init.Rhs[0].(*ast.BasicLit); !ok || lit.Value != "0" {
+		die(t.Pos(), "for: init is not 0")
+	}
+	cond, ok := t.Cond.(*ast.BinaryExpr)
+	if !ok || cond.Op != token.LSS || exprName(cond.X) != iv {
+		die(t.Pos(), "for: condition is not i < len(s)")
+	}
+	lc, ok := cond.Y.(*ast.CallExpr)
+	if !ok || exprName(lc.Fun) != "len" || len(lc.Args) != 1 {
+		die(t.Pos(), "for: condition is not i < len(s)")
+	}
+	post, ok := t.Post.(*ast.IncDecStmt)
+	if !ok || post.Tok != token.INC || exprName(post.X) != iv {
+		die(t.Pos(), "for: post is not i++")
+	}
+	bound := e.expr(lc.Args[0])
+	if !bound.pure || bound.k != kStr {
+		die(t.Pos(), "for: bound")
+	}
+	e.nloops++
+	lname := fmt.Sprintf("%s_loop%d", e.fname, e.nloops)
+	e.declare(iv, kInt)
+	carried := append([]string{}, e.locals...)
+	var binders, args, pats []string
+	for _, v := range carried {
+		binders = append(binders, leanType(e.vars[v]))
+		args = append(args, e.name[v])
+		pats = append(pats, e.name[v])
+	}
+	// the auxiliary definition
+	sub := &env{vars: copyMap(e.vars), name: copyMapS(e.name), locals: append([]string{}, e.locals...), params: e.params, fname: e.fname, want: e.want, aux: e.aux, nloops: e.nloops}
+	recur := func(i string) string {
+		var as []string
+		for _, v := range carried {
+			if v == iv {
+				as = append(as, "("+sub.name[v]+" + 1)")
+			} else {
+				as = append(as, sub.name[v])
+			}
+		}
+		return fmt.Sprintf("%s%s %s fuel %s", i, lname, strings.Join(paramNames(e.params), " "), strings.Join(as, " "))
+	}
+	body := sub.stmts(t.Body.List, "      ", recur)
+	exit := sub.stmts(nil, "      ", rest)
+	var wantT []string
+	for _, k := range e.want {
+		wantT = append(wantT, leanType(k))
+	}
+	fmt.Fprintf(e.aux, "def %s %s : Nat → %s → Res (%s)\n  | 0, %s => .panic \"loop-fuel\"\n  | fuel + 1, %s =>\n    if %s < (%s.length : Int) then do\n%s\n    else do\n%s\n\n",
+		lname, strings.Join(e.params, " "), strings.Join(binders, " → "), strings.Join(wantT, " × "),
+		strings.Join(underscores(len(pats)), ", "), strings.Join(pats, ", "), sub.name[iv], bound.code, body, exit)
+	e.nloops = sub.nloops
+	var callArgs []string
+	for _, v := range carried {
+		if v == iv {
+			callArgs = append(callArgs, "0")
+		} else {
+			callArgs = append(callArgs, e.name[v])
+		}
+	}
+	return fmt.Sprintf("%s%s %s (%s.length + 1) %s", ind, lname, strings.Join(paramNames(e.params), " "), bound.code, strings.Join(callArgs, " "))
+}
+
+func underscores(n int) []string {
+	var r []string
+	for i := 0; i < n; i++ {
+		r = append(r, "_")
+	}
+	return r
+}
+
+func paramNames(binders []string) []string {
+	var r []string
+	for _, b := range binders {
+		r = append(r, strings.TrimPrefix(strings.SplitN(b, " ", 2)[0], "("))
+	}
+	return r
+}
+
+func exprName(x ast.Expr) string {
+	if id, ok := x.(*ast.Ident); ok {
+		return id.Name
+	}
 	return ""
 }
 
@@ -281,6 +523,9 @@ func kindOfType(x ast.Expr) kind {
 		case "int":
 			return kInt
 		}
+	}
+	if sel, ok := x.(*ast.SelectorExpr); ok && sel.Sel.Name == "OID" {
+		return kOID
 	}
 	die(x.Pos(), "unsupported type")
 	return kStr
@@ -345,6 +590,13 @@ func translate(repo, rel, recvType, fn, leanName string, out *strings.Builder) {
 		for _, p := range fd.Type.Params.List {
 			k := kindOfType(p.Type)
 			for _, n := range p.Names {
+				if k == kOID {
+					key := n.Name + ".String()"
+					e.vars[key] = kStr
+					e.name[key] = "g_" + n.Name + "_String"
+					params = append(params, fmt.Sprintf("(g_%s_String : Bytes)", n.Name))
+					continue
+				}
 				e.vars[n.Name] = k
 				e.name[n.Name] = "g_" + n.Name
 				params = append(params, fmt.Sprintf("(g_%s : %s)", n.Name, leanType(k)))
@@ -352,6 +604,7 @@ func translate(repo, rel, recvType, fn, leanName string, out *strings.Builder) {
 		}
 		var want []kind
 		var wantT []string
+		var namedInit []string
 		for _, r := range fd.Type.Results.List {
 			k := kindOfType(r.Type)
 			n := len(r.Names)
@@ -362,9 +615,24 @@ func translate(repo, rel, recvType, fn, leanName string, out *strings.Builder) {
 				want = append(want, k)
 				wantT = append(wantT, leanType(k))
 			}
+			for _, nm := range r.Names { // named results start at their zero values
+				e.declare(nm.Name, k)
+				zero := map[kind]string{kBool: "false", kInt: "(0 : Int)", kStr: "([] : Bytes)"}[k]
+				namedInit = append(namedInit, fmt.Sprintf("  let %s := %s", e.name[nm.Name], zero))
+			}
 		}
-		body := e.block(fd.Body.List, want, "  ")
-		fmt.Fprintf(out, "/-- %s: %s%s -/\ndef %s %s : Res (%s) :=\n%s\n\n", rel, map[bool]string{true: "(" + recvType + ") ", false: ""}[recvType != ""], fn, leanName, strings.Join(params, " "), strings.Join(wantT, " × "), body)
+		var aux strings.Builder
+		e.params, e.fname, e.want, e.aux = params, leanName, want, &aux
+		body := e.stmts(fd.Body.List, "  ", func(ind string) string {
+			die(fd.End(), "function falls off its end")
+			return ""
+		})
+		if len(namedInit) > 0 {
+			body = strings.Join(namedInit, "\n") + "\n" + body
+		}
+		out.WriteString(aux.String())
+		fmt.Fprintf(out, "/-- %s: %s%s -/\ndef %s %s : Res (%s) := do\n%s\n\n", rel, map[bool]string{true: "(" + recvType + ") ", false: ""}[recvType != ""], fn, leanName, strings.Join(params, " "), strings.Join(wantT, " × "), body)
+		translated[fn] = want
 		return
 	}
 	fmt.Fprintf(os.Stderr, "gostr2lean: %s: function %s not found\n", rel, fn)
@@ -378,9 +646,11 @@ func main() {
 	}
 	repo, outdir := os.Args[1], os.Args[2]
 	var out strings.Builder
-	out.WriteString("import GitSizer.Basic.GoSem\n-- GENERATED by tools/gostr2lean from git/ref_filter.go and git/gitconfig.go — do not edit\nnamespace Gen.Strs\nopen GitSizer\n\n")
+	out.WriteString("import GitSizer.Basic.GoSem\n-- GENERATED by tools/gostr2lean from git/ref_filter.go, git/gitconfig.go and sizes/path_resolver.go — do not edit\nnamespace Gen.Strs\nopen GitSizer\n\n")
 	translate(repo, "git/ref_filter.go", "prefixFilter", "Filter", "prefixFilter_Filter", &out)
 	translate(repo, "git/gitconfig.go", "", "configKeyMatchesPrefix", "configKeyMatchesPrefix", &out)
+	translate(repo, "sizes/path_resolver.go", "", "scanRevision", "scanRevision", &out)
+	translate(repo, "sizes/path_resolver.go", "", "rootTreePrefix", "rootTreePrefix", &out)
 	out.WriteString("end Gen.Strs\n")
 	os.MkdirAll(outdir, 0o755)
 	if err := os.WriteFile(filepath.Join(outdir, "Strs.lean"), []byte(out.String()), 0o644); err != nil {
